@@ -149,6 +149,10 @@ def monitored_run(d, rseed, obs, judge=True):
         net.plugin = _legacy
         if obs is not None:
             obs.ev("arrivals_delivered_in_the_legacy_two_argument_form")
+    if rseed % 5 == 0:
+        from vlib.monitors import poke
+        poke(net, sim)
+        poke(sim.event_queue)
     stations = list(net.station_ids)
     sh = Shadow(stations)
     log = []  # placement log: (iteration, op, session, station)
